@@ -54,7 +54,7 @@ Clauses(X, K, C) ==
         Cl("C09_RefCoherent", dom /\ HasSteps(t), C09_RefCoherent(t)),
         Cl("C09_DirectView", dom /\ HasSteps(t), C09_DirectView(t)),
         Cl("C09_SameOutcome", dom /\ HasSeq(t) /\ t.fault = 0, C09_SameOutcome(t)),
-        Cl("C09_BatchEqSeq", IF done /\ HasSeq(t) THEN t.exc2 = "" ELSE FALSE, C09_BatchEqSeq(X, K)),
+        Cl("C09_BatchEqSeq", IF done /\ HasSeq(t) THEN t.exc2 = "" /\ SeqComparable(t) ELSE FALSE, C09_BatchEqSeq(X, K)),
         Cl("C08_Completes", IF dom THEN C.relevant /\ C.dom ELSE FALSE, Completed(t)),
         Cl("C08_StillEvaluates", IF done THEN C.relevant /\ C.dom ELSE FALSE, C08_StillEvaluates(C)),
         Cl("C08_Structure", IF done THEN C.relevant /\ C.dom ELSE FALSE, C08_Structure(C)),
